@@ -71,7 +71,7 @@ type c02Worker struct {
 	app *c02App
 	ed  *Editor
 	// counters, summed at the end
-	valid, prefixes, cleanPrefixes, mixed, partialNoCompletion int64
+	valid, prefixes, cleanPrefixes, mixed, partialNoCompletion, dotRuns int64
 }
 
 func c02NewWorker() *c02Worker {
@@ -81,28 +81,30 @@ func c02NewWorker() *c02Worker {
 	return w
 }
 
-// enter puts s into the code area with the cursor at the end, calls the real
-// smartEnter and reports whether it inserted a newline (true) or submitted
-// (false); bad != "" when it did neither properly.
-func (w *c02Worker) enter(s string) (inserted bool, bad, msg string) {
+// enter puts s into the code area with the cursor at byte offset dot, calls
+// the real smartEnter and reports whether it inserted a newline (true) or
+// submitted (false); bad != "" when it did neither properly.
+func (w *c02Worker) enter(s string, dot int) (inserted bool, bad, msg string) {
 	w.app.seq = w.app.seq[:0]
 	w.app.area.MutateState(func(st *tk.CodeAreaState) {
-		*st = tk.CodeAreaState{Buffer: tk.CodeBuffer{Content: s, Dot: len(s)}}
+		*st = tk.CodeAreaState{Buffer: tk.CodeBuffer{Content: s, Dot: dot}}
 	})
 	if p := vk.Try(func() { smartEnter(w.ed) }); p != "" {
-		return false, "enter-panic:" + vk.PanicSite(p), fmt.Sprintf("smart-enter on %q panicked: %s", s, p)
+		return false, "enter-panic:" + vk.PanicSite(p), fmt.Sprintf("smart-enter on %q (cursor at %d) panicked: %s", s, dot, p)
 	}
 	buf := w.app.area.CopyState().Buffer
 	seq := string(w.app.seq)
 	switch {
-	case buf.Content == s+"\n" && buf.Dot == len(s)+1 && seq == "":
+	case seq == "" && len(buf.Content) == len(s)+1 && buf.Content[:dot] == s[:dot] && buf.Content[dot] == '\n' && buf.Content[dot+1:] == s[dot:] && buf.Dot == dot+1:
 		return true, "", ""
-	case buf.Content == s && buf.Dot == len(s) && seq == "fc":
+	case buf.Content == s && buf.Dot == dot && seq == "fc":
 		return false, "", ""
-	case buf.Content == s && buf.Dot == len(s) && seq == "c":
+	case buf.Content == s && buf.Dot == dot && seq == "c":
 		return false, "enter-submit-skips-autofix", fmt.Sprintf("smart-enter on %q submitted the code without applying pending autofixes first (documented: \"applies any pending autofixes and accepts the current line\")", s)
+	case seq == "" && buf.Content != s:
+		return false, "enter-newline-not-at-cursor", fmt.Sprintf("smart-enter on %q with the cursor at %d did not submit and changed the buffer to %q with cursor %d; expected %q with cursor %d (one newline inserted at the cursor)", s, dot, buf.Content, buf.Dot, s[:dot]+"\n"+s[dot:], dot+1)
 	default:
-		return false, "enter-malformed-outcome", fmt.Sprintf("smart-enter on %q (cursor at end): buffer is now %q with cursor %d, calls=%q (f=autofix c=commit n=notify); expected either exactly one newline appended and no submit, or unchanged buffer, autofix, submit", s, buf.Content, buf.Dot, seq)
+		return false, "enter-malformed-outcome", fmt.Sprintf("smart-enter on %q (cursor at %d): buffer is now %q with cursor %d, calls=%q (f=autofix c=commit n=notify); expected either exactly one newline inserted at the cursor and no submit, or unchanged buffer, autofix, submit", s, dot, buf.Content, buf.Dot, seq)
 	}
 }
 
@@ -201,7 +203,7 @@ func c02Kinds(n parse.Node, kinds *uint32) {
 // visit parses s with the real parser, checks the clause about partial errors
 // (for every input), calls the real smartEnter and checks that its decision
 // agrees with the Partial flags.
-func (r *c02Run) visit(w *c02Worker, s string) c02Info {
+func (r *c02Run) visit(w *c02Worker, s string, allDots bool) c02Info {
 	var info c02Info
 	var tree parse.Tree
 	var err error
@@ -244,7 +246,7 @@ func (r *c02Run) visit(w *c02Worker, s string) c02Info {
 		w.valid++
 	}
 
-	ins, bad, msg := w.enter(s)
+	ins, bad, msg := w.enter(s, len(s))
 	if bad != "" {
 		r.violate(bad, msg, s)
 	} else {
@@ -264,6 +266,22 @@ func (r *c02Run) visit(w *c02Worker, s string) c02Info {
 			r.violate("enter-submits-code-with-only-partial-errors", fmt.Sprintf("%q has only parse errors marked partial (%d; first %q), i.e. the code is incomplete, yet Enter submitted it instead of inserting a newline", s, info.nErr, errs[0].Message), s)
 		case info.nErr > 0 && info.nPartial > 0 && info.nPartial < info.nErr:
 			w.mixed++ // documentation does not say whether such code is "incomplete": not judged here
+		}
+	}
+
+	// The decision is documented as depending on "the current code", and the
+	// newline goes where the cursor is: repeat with the cursor at every other rune
+	// boundary of the buffer.
+	if allDots && info.enterOK {
+		for d := range s { // rune starts 0..len(s)-1
+			ins2, bad2, msg2 := w.enter(s, d)
+			w.dotRuns++
+			if bad2 != "" {
+				r.violate(bad2, msg2, s)
+			} else if ins2 != ins {
+				what := map[bool]string{true: "inserts a newline", false: "submits the code"}
+				r.violate("enter-decision-depends-on-cursor", fmt.Sprintf("code %q (%d parse errors, %d partial): with the cursor at the end Enter %s, with the cursor at byte %d Enter %s; whether the code is incomplete does not depend on the cursor", s, info.nErr, info.nPartial, what[ins], d, what[ins2]), s)
+			}
 		}
 	}
 
@@ -308,7 +326,7 @@ func (r *c02Run) dfs(w *c02Worker, l *vk.Local, idx []int, s string) string {
 		return r.shard[idx[0]*len(r.alpha)+idx[1]]
 	}
 	l.Begin(s)
-	info := r.visit(w, s)
+	info := r.visit(w, s, len(idx) <= c02DotDepth)
 	l.End()
 	best := ""
 	if len(idx) < r.depth {
@@ -324,7 +342,7 @@ func (r *c02Run) dfs(w *c02Worker, l *vk.Local, idx []int, s string) string {
 				// inside the token t is a proper prefix of a valid program too.
 				for _, cut := range r.cuts[j] {
 					l.Begin(s + cut)
-					ci := r.visit(w, s+cut)
+					ci := r.visit(w, s+cut, len(idx) < c02DotDepth)
 					l.End()
 					r.judgePrefix(w, s+cut, ci, wit)
 					l.Case(ci.class + "|p")
@@ -389,6 +407,7 @@ func c02Explore(c *vk.Ctx, name string, alpha []string, depth int, viol map[stri
 		tot.cleanPrefixes += w.cleanPrefixes
 		tot.mixed += w.mixed
 		tot.partialNoCompletion += w.partialNoCompletion
+		tot.dotRuns += w.dotRuns
 	}
 }
 
@@ -449,9 +468,14 @@ type c02FSCase struct {
 	s            string
 	expectInsert bool
 	witness      string
+	dot          int
 }
 
 const c02EnterWaitSeconds = 120
+
+// Strings of at most this many tokens get Enter with the cursor at every rune
+// boundary, not only at the end.
+const c02DotDepth = 4
 
 func c02FullStack(t *testing.T, c *vk.Ctx, cases []c02FSCase, viol map[string]c02Viol) {
 	if scratch := os.Getenv("VERIF_SCRATCH"); scratch != "" {
@@ -485,8 +509,9 @@ func c02FullStack(t *testing.T, c *vk.Ctx, cases []c02FSCase, viol map[string]c0
 			return
 		}
 		area.MutateState(func(s *tk.CodeAreaState) {
-			*s = tk.CodeAreaState{Buffer: tk.CodeBuffer{Content: cs.s, Dot: len(cs.s)}}
+			*s = tk.CodeAreaState{Buffer: tk.CodeBuffer{Content: cs.s, Dot: cs.dot}}
 		})
+		wantBuf := tk.CodeBuffer{Content: cs.s[:cs.dot] + "\n" + cs.s[cs.dot:], Dot: cs.dot + 1}
 		tty.events <- term.K(ui.Enter)
 		deadline := time.Now().Add(c02EnterWaitSeconds * time.Second)
 		outcome := ""
@@ -500,11 +525,11 @@ func c02FullStack(t *testing.T, c *vk.Ctx, cases []c02FSCase, viol map[string]c0
 					outcome = "submit"
 				}
 			default:
-				if content := area.CopyState().Buffer.Content; content != cs.s && content != "" {
-					if content == cs.s+"\n" {
+				if buf := area.CopyState().Buffer; buf.Content != cs.s && buf.Content != "" {
+					if buf == wantBuf {
 						outcome = "newline"
 					} else {
-						outcome = fmt.Sprintf("buffer:%q", content)
+						outcome = fmt.Sprintf("buffer:%q with cursor %d instead of %q with cursor %d", buf.Content, buf.Dot, wantBuf.Content, wantBuf.Dot)
 					}
 				} else if time.Now().After(deadline) {
 					outcome = "nothing"
@@ -513,19 +538,23 @@ func c02FullStack(t *testing.T, c *vk.Ctx, cases []c02FSCase, viol map[string]c0
 				}
 			}
 		}
+		where := ""
+		if cs.dot < len(cs.s) {
+			where = ":cursor-not-at-end"
+		}
 		class := "fullstack|" + outcome
 		if len(outcome) > 8 {
 			class = "fullstack|" + outcome[:6]
 		}
-		c.Case(fmt.Sprintf("%s|%v", class, cs.expectInsert))
+		c.Case(fmt.Sprintf("%s|%v%s", class, cs.expectInsert, where))
 		switch {
 		case outcome == "newline":
 			if !cs.expectInsert {
-				put("fullstack-enter-newline-on-clean-code", fmt.Sprintf("real editor: %q parses without error, but the Enter key inserted a newline instead of submitting", cs.s), cs.s)
+				put("fullstack-enter-newline-on-clean-code"+where, fmt.Sprintf("real editor: %q parses without error, but the Enter key (cursor at byte %d) inserted a newline instead of submitting", cs.s, cs.dot), cs.s)
 			}
 		case outcome == "submit":
 			if cs.expectInsert {
-				put("fullstack-enter-submits-incomplete-prefix", fmt.Sprintf("real editor: %q is a prefix with parse errors of the valid program %q, but the Enter key submitted it instead of inserting a newline", cs.s, cs.witness), cs.s)
+				put("fullstack-enter-submits-incomplete-prefix"+where, fmt.Sprintf("real editor: %q is a prefix with parse errors of the valid program %q, but the Enter key (cursor at byte %d) submitted it instead of inserting a newline", cs.s, cs.witness, cs.dot), cs.s)
 			} else if code != cs.s {
 				put("fullstack-submitted-code-differs", fmt.Sprintf("real editor: Enter on %q submitted %q", cs.s, code), cs.s)
 			}
@@ -534,7 +563,7 @@ func c02FullStack(t *testing.T, c *vk.Ctx, cases []c02FSCase, viol map[string]c0
 			put("fullstack-enter-no-effect", fmt.Sprintf("real editor: the Enter key on %q neither inserted a newline nor submitted within %d s", cs.s, c02EnterWaitSeconds), cs.s)
 			return // state of the editor unknown
 		default:
-			put("fullstack-enter-unexpected-outcome", fmt.Sprintf("real editor: the Enter key on %q (cursor at end) led to %s", cs.s, outcome), cs.s)
+			put("fullstack-enter-unexpected-outcome"+where, fmt.Sprintf("real editor: the Enter key on %q (cursor at byte %d) led to %s", cs.s, cs.dot, outcome), cs.s)
 			if strings.HasPrefix(outcome, "error:") {
 				codeCh, errCh = clitest.StartReadCode(ed.ReadCode)
 			}
@@ -562,11 +591,11 @@ func TestVerifC02(t *testing.T) {
 				rule += fmt.Sprintf("<=%d tokens over the %s alphabet %q; ", wk.depth, wk.name, wk.alpha)
 			}
 		}
-		c.Rule(rule + fmt.Sprintf("a string that parses with no error is a valid program; every ancestor of it in the tree and every cut inside a multi-rune token on the way (= every proper prefix at a rune boundary) is judged as a prefix of a valid program. Every visited string (prefix or not) is also checked for 'partial errors start at the end' and for agreement of the real smartEnter with the Partial flags. First of all, every distinct prefix of the valid programs of <=%d tokens over the program(30) alphabet, and those programs, get the Enter key event in a real Editor. class = (set of primary/node kinds in the tree, number of errors, first two error messages with their partial flag, Enter outcome, prefix-of-valid or not)", nFS))
+		c.Rule(rule + fmt.Sprintf("a string that parses with no error is a valid program; every ancestor of it in the tree and every cut inside a multi-rune token on the way (= every proper prefix at a rune boundary) is judged as a prefix of a valid program. Every visited string (prefix or not) is also checked for 'partial errors start at the end' and for agreement of the real smartEnter (cursor at the end) with the Partial flags; every string of <=4 tokens additionally gets smartEnter with the cursor at every other rune boundary (same decision, newline at the cursor). First of all, every distinct prefix of the valid programs of <=%d tokens over the program(30) alphabet, and those programs, get the Enter key event in a real Editor with the cursor at every rune boundary. class = (set of primary/node kinds in the tree, number of errors, first two error messages with their partial flag, Enter outcome, prefix-of-valid or not)", nFS))
 		c.Assume("a prefix of a valid program is recognised by the walk itself: some strict descendant within the bound parses with no error (valid programs longer than the bound are not considered)",
 			"third clause read as: for every such prefix that has parse errors Enter inserts a newline (a prefix that parses cleanly, like `a` of `a b`, is complete code and must be accepted)",
 			"code with both partial and non-partial errors is not judged for Enter agreement (documentation silent); counted as not_judged_mixed_errors",
-			"the exhaustive part calls the real smartEnter on a real code area behind a stub cli.App with the cursor at the end of the buffer; the real-Editor part covers the Enter binding for the shortest programs",
+			"the exhaustive part calls the real smartEnter on a real code area behind a stub cli.App; the cursor is at the end of the buffer, and for strings of <=4 tokens also at every other rune boundary; the real-Editor part covers the Enter binding for the shortest programs",
 			fmt.Sprintf("real-Editor part: an Enter key event that has no observable effect within %d s is reported as having no effect", c02EnterWaitSeconds))
 		viol := map[string]c02Viol{}
 
@@ -580,7 +609,7 @@ func TestVerifC02(t *testing.T) {
 				}
 				return
 			}
-			seen[s] = c02FSCase{s, expectInsert, witness}
+			seen[s] = c02FSCase{s, expectInsert, witness, 0}
 		}
 		r.dfs(c02NewWorker(), vk.NewLocal(), make([]int, 0, nFS+1), "")
 		var cases []c02FSCase
@@ -595,6 +624,19 @@ func TestVerifC02(t *testing.T) {
 			}
 			return cases[i].s < cases[j].s
 		})
+		var withDots []c02FSCase
+		for _, cs := range cases {
+			for d := range cs.s {
+				if d > 0 {
+					withDots = append(withDots, c02FSCase{cs.s, cs.expectInsert, cs.witness, d})
+				}
+			}
+			if len(cs.s) > 0 {
+				withDots = append(withDots, c02FSCase{cs.s, cs.expectInsert, cs.witness, 0})
+			}
+			withDots = append(withDots, c02FSCase{cs.s, cs.expectInsert, cs.witness, len(cs.s)})
+		}
+		cases = withDots
 		c.Set("full_stack_enter_cases", len(cases))
 		for i, n := len(cases)-1, 0; i >= 0 && n < 6; i -= 37 {
 			if cs := cases[i]; cs.expectInsert {
@@ -610,6 +652,7 @@ func TestVerifC02(t *testing.T) {
 				c02Explore(c, wk.name, wk.alpha, wk.depth, viol, tot)
 			}
 		}
+		c.Set("enter_runs_with_cursor_not_at_end", tot.dotRuns)
 		c.Set("valid_programs", tot.valid)
 		c.Set("prefixes_of_valid_programs_judged", tot.prefixes)
 		c.Set("prefixes_that_parse_cleanly", tot.cleanPrefixes)
